@@ -144,7 +144,8 @@ func (p SpendPolicy) Verify(height uint64, medianTimestamp time.Time, sigHash Ha
 			}
 			return fmt.Errorf("height (%v) not above %v", height, uint64(p))
 		case PolicyTypeAfter:
-			if medianTimestamp.After(time.Time(p)) {
+			// NOTE: only the whole seconds of the timestamp are part of the policy
+			if medianTimestamp.After(time.Unix(time.Time(p).Unix(), 0)) {
 				return nil
 			}
 			return fmt.Errorf("median timestamp (%v) not after %v", medianTimestamp, time.Time(p))
